@@ -50,3 +50,19 @@ PROPS["C13"] = dict(
     trusted_base=["byte-string theory axioms", "float model: a/b is the correctly rounded double of the exact quotient (error <= 2^-53 relative)"],
     explanation="sigencode_*_canonize(r,s,n) == sigencode_*(r, min(s, n-s), n) for every n >= 2 and 1 <= s <= n-1",
 )
+
+
+_COORD = ["ecdsa.ellipticcurve.PointJacobi." + f for f in ("_double_with_z_1", "_double", "_add_with_z_1", "_add_with_z_eq", "_add_with_z2_1", "_add_with_z_ne", "_add")]
+_OBJ = ["ecdsa.ellipticcurve.PointJacobi." + f for f in ("__init__", "x", "y", "scale", "__neg__", "__eq__", "double", "__add__", "from_affine", "to_affine")]
+PROPS["C06"] = dict(
+    level="other",
+    functions=_COORD + _OBJ,
+    lemmas=[],
+    bounded=[dict(function=q, role="CPython cross-check of a proved contract", bound="all points x all Z-scalings x reduced/unreduced Y on toy curves over F_p, p <= 11 (quick) / 17 (thorough)") for q in _COORD] +
+            [dict(function=q, role="CPython cross-check of a proved contract", bound="all stored representations of all points of toy curves over F_p, p <= 7 (quick) / 13 (thorough), mixed with INFINITY and affine Point objects")
+             for q in _OBJ if q.split(".")[-1] not in ("__init__", "from_affine")],
+    min_obligations=40,
+    trusted_base=["field axioms of F_p for an odd prime p > 3 (no zero divisors, 2 and 3 are units)", "sympy cancel/factor as normal form of rational functions",
+                  "the chord-and-tangent formulas of spec/ec.py and pyvc/field.py are the group law"],
+    explanation="Jacobian formulas executed symbolically from the real AST; results compared with the textbook law as rational-function identities; integer guards compared with residue conditions by interval analysis",
+)
